@@ -148,6 +148,40 @@ def r_slit_and_report(ctx: Ctx, model):
                 ctx.ob(decide_zero(captured["bound"] - 2 * d0)[0] == "zero" and captured["geo"] == 1,
                        Finding("C17.H-solve", fi.where, "slit|solver-bounds", f"slit solver lower bound {captured['bound']}, geo {captured['geo']}; required 2*d0, 1"),
                        nontrivial_key=("slit", "bound"))
+            if geom == "sphere" and not use_cy:
+                # Cheng & Yang (1994) spherical cavity: 6 (n1 A12/(4 d0^6) + n2 A22/(4 d_ads^6)) L^3/(L-d0)^3 *
+                #   [ -(d0/L)^6 (T1/12 + T2/8) + (d0/L)^12 (T3/90 + T4/80) ],  n1 = 4 pi L^2 N_mat, n2 = 4 pi (L-d0)^2 N_ads,
+                #   T1 = (1-s)^-3 - (1+s)^-3, T2 = (1+s)^-2 - (1-s)^-2, T3 = (1-s)^-9 - (1+s)^-9, T4 = (1+s)^-8 - (1-s)^-8, s = (L-d0)/L
+                phi_f = captured["fun"]
+                l = S("l")
+                outs2 = I.explore(lambda I: I.call_value(phi_f, [l], {}, None))
+                if len(outs2) != 1 or outs2[0].kind != "ok":
+                    raise AnalysisError(f"sphere potential closure cannot be evaluated: {outs2}")
+                phi = outs2[0].value
+                d0 = (a["molecular_diameter"] + m["molecular_diameter"]) / 2
+                nm9 = sp.Rational(1, 10**9)
+                pa, pm_ = a["polarizability"] * sp.Rational(1, 10**27), m["polarizability"] * sp.Rational(1, 10**27)
+                ca, cm = a["magnetic_susceptibility"] * sp.Rational(1, 10**27), m["magnetic_susceptibility"] * sp.Rational(1, 10**27)
+                A22 = sp.Rational(3, 2) * S("m_e") * S("c_l")**2 * pa * ca
+                A12 = 6 * S("m_e") * S("c_l")**2 * pa * pm_ / (pa / ca + pm_ / cm)
+                e12 = A12 / (4 * (d0 * nm9)**6)
+                e22 = A22 / (4 * (a["molecular_diameter"] * nm9)**6)
+                n1 = 4 * sp.pi * (l * nm9)**2 * m["surface_density"]
+                n2 = 4 * sp.pi * ((l - d0) * nm9)**2 * a["surface_density"]
+                s_ = (l - d0) / l
+                T1, T2 = (1 - s_)**-3 - (1 + s_)**-3, (1 + s_)**-2 - (1 - s_)**-2
+                T3, T4 = (1 - s_)**-9 - (1 + s_)**-9, (1 + s_)**-8 - (1 - s_)**-8
+                want = (S("N_A") / (S("R") * T)) * 6 * (n1 * e12 + n2 * e22) * (l / (l - d0))**3 * \
+                    (-(d0 / l)**6 * (T1 / 12 + T2 / 8) + (d0 / l)**12 * (T3 / 90 + T4 / 80))
+                verdict, wit = decide_zero(phi - want, symbols_domain={"l": (2, 3), "d_a": (sp.Rational(3, 10), sp.Rational(4, 10)), "d_m": (sp.Rational(5, 10), sp.Rational(6, 10))})
+                ctx.ob(verdict == "zero", Finding("C17.H-sphere", fi.where, "hk-sphere|potential!=published-equation",
+                                                  "the spherical-cavity potential built by psd_horvath_kawazoe differs from the Cheng-Yang equation "
+                                                  "6 (n1 A12/(4 d0^6) + n2 A22/(4 d_ads^6)) L^3/(L-d0)^3 [-(d0/L)^6 (T1/12 + T2/8) + (d0/L)^12 (T3/90 + T4/80)] "
+                                                  f"(Kirkwood-Mueller constants, nm->m factors, N_A/RT); witness {wit}"),
+                       nontrivial_key=("sphere-hk", "phi"), sample={"rule": "H-sphere", "derived": str(phi)[:300]})
+                ctx.ob(decide_zero(captured["bound"] - d0)[0] == "zero" and captured["geo"] == 2,
+                       Finding("C17.H-solve", fi.where, "sphere|solver-bounds", f"sphere solver lower bound {captured['bound']}, geo {captured['geo']}; required d0, 2"),
+                       nontrivial_key=("sphere", "bound"))
 
 
 def r_ry_sphere(ctx: Ctx, model):
